@@ -452,3 +452,126 @@ def gen_C16(r):
 
 
 GEN["C16"] = gen_C16
+
+
+# ---------------------------------------------------------------------------------------------
+
+def _stream_script(r):
+    steps = []
+    n = r.choice([0, 1, 2, 3, 5, 8])
+    for _ in range(n):
+        steps.append([r.choice(["out", "out", "err"]),
+                      {"k": r.choice(["txt", "bin", "all"]),
+                       "n": r.choice([0, 1, 2, 10, 100, 4095, 4096, 4097, 8192, 20000, 65536, 70000, 140000]),
+                       "seed": r.randrange(1 << 30)}])
+    if r.random() < 0.3:
+        steps.insert(r.randint(0, len(steps)), ["file", "data/x.bin", {"k": "bin", "n": 100, "seed": 1}])
+    sc = {"steps": steps, "end": ["exit", r.choice([0, 0, 0, 0, 3])]}
+    if r.random() < 0.3:
+        sc["instant_exit"] = True
+    return sc
+
+
+def gen_C10(r):
+    pk = _pkgs(r)
+    tasks = S.gen_graph(r, r.randint(1, 4), {"exp": 9, "cmd": 1, "group": 1}, pk, p_par=0.5)
+    for t, d in tasks.items():
+        if d["kind"] in ("exp", "cmd"):
+            if r.random() < 0.6:
+                d["args"] = [S.gen_value(r) for _ in range(r.randint(1, 4))]
+            else:
+                d.pop("args", None)
+            if r.random() < 0.6:
+                keys = r.sample(["threads", "mem", "mode", "fast", "alpha", "z", "a-b", "x_y"], r.randint(1, 4))
+                d["options"] = {k: S.gen_value(r) for k in keys}
+            else:
+                d.pop("options", None)
+    scn = {"epoch": 1_700_000_000 + r.randrange(10**6), "tasks": tasks, "pkgs": pk,
+           "git": {"mode": "none"}, "disable_git": True, "history": [],
+           "knobs": {"mon": r.random() < 0.6, "p_async": r.choice([0.0, 1e-3, 1e-2, 5e-2]),
+                     "p_burst": r.choice([0.0, 0.5]), "bias": r.choice(["uniform", "fifo", "lifo"]),
+                     "cpu_count": 2}}
+    for _ in range(r.choice([1, 1, 2])):
+        flags = {}
+        j = r.choice([None, None, 1, 2, 3])
+        if j is not None:
+            flags["jobs"] = j
+        if r.random() < 0.5:
+            flags["again"] = True
+        op = {"op": "run", "target": S.pick_target(r, tasks), "flags": flags, "cwd": "",
+              "gap": r.choice([0.0, 1.0, 3.0]), "scripts": {}}
+        for t, d in tasks.items():
+            if d["kind"] in ("exp", "cmd"):
+                op["scripts"][t] = [_stream_script(r), _stream_script(r)]
+        scn["history"].append(op)
+    return scn
+
+
+GEN["C10"] = gen_C10
+
+
+# ---------------------------------------------------------------------------------------------
+
+def _tree_script(r):
+    steps = []
+    for _ in range(r.randint(0, 4)):
+        steps.append(["file", r.choice(["res.csv", "data/out.bin", "m.txt", "d/e/f.json", "d/e/g.json", "x.task.5/inner.txt",
+                                         "logs/run.task/l.txt"]),
+                      {"k": r.choice(["bin", "txt", "all"]), "n": r.choice([0, 1, 100, 5000, 70000]), "seed": r.randrange(1 << 30)}])
+    if r.random() < 0.25:
+        steps.append(["mkdir", r.choice(["emptydir", "d/empty"])])
+    if r.random() < 0.15:
+        steps.append(["symlink", "latest", "m.txt"])
+    if r.random() < 0.3:
+        steps.append([r.choice(["out", "err"]), {"k": "txt", "n": r.choice([10, 300]), "seed": r.randrange(1 << 30)}])
+    r.shuffle(steps)
+    return {"steps": steps, "end": ["exit", 0]}
+
+
+def gen_C11(r):
+    pk = _pkgs(r)
+    tasks = S.gen_graph(r, r.randint(2, 7), {"exp": 6, "cmd": 2, "group": 1, "combine": 1}, pk, p_par=0.3)
+    scn = {"epoch": 1_700_000_000 + r.randrange(10**6), "tasks": tasks, "pkgs": pk,
+           "git": {"mode": "none"}, "disable_git": r.random() < 0.5, "history": [],
+           "knobs": S.gen_knobs(r, mon=False, p_async_choices=(0.0,))}
+    ops = []
+    if not scn["disable_git"] and r.random() < 0.6:
+        ops += [{"op": "git", "action": "init"}, {"op": "git", "action": "commit", "name": "c0"}]
+    exps = [t for t, d in tasks.items() if d["kind"] == "exp"]
+
+    def run_op(again_p):
+        op = _run_op(r, tasks, jobs_choices=(None, None, 2), again_p=again_p, fail_p=r.choice([0.0, 0.0, 0.2]),
+                     files=False, cwds=("",), target=r.choice(list(tasks)) if r.random() < 0.4 else None)
+        for t, d in tasks.items():
+            if d["kind"] in ("exp", "cmd"):
+                fail = op["scripts"].get(t, [{}])[0].get("end", ["exit", 0]) != ["exit", 0] or op["scripts"].get(t, [{}])[0].get("launch")
+                if not fail:
+                    op["scripts"][t] = [_tree_script(r), _tree_script(r)]
+        return op
+
+    for k in range(r.randint(1, 4)):
+        ops.append(run_op(0.0 if k == 0 else 0.6))
+        if ops[0]["op"] == "git" and r.random() < 0.3:
+            ops.append({"op": "git", "action": "commit", "name": "c%d" % (k + 1)})
+            if r.random() < 0.3:
+                ops.append({"op": "git", "action": "dirty", "value": True})
+    target = None
+    c = r.random()
+    if c < 0.45:
+        target = r.choice(list(tasks))
+    out = "A0" if r.random() < 0.8 else None
+    ops.append({"op": "archive", "target": target, "out": out, "flags": {"latest": r.random() < 0.4},
+                "cwd": r.choice(["", ""] + pk)})
+    ops.append({"op": "clean", "cwd": ""} if out and r.random() < 0.6 else {"op": "wipe"})
+    if r.random() < 0.2:
+        ops.append({"op": "git", "action": "dirty", "value": False})
+    ops.append({"op": "restore", "archive": out or "@default", "cwd": r.choice(["", ""] + pk)})
+    if r.random() < 0.5:
+        ops.append({"op": "where", "target": r.choice(exps) if exps else r.choice(list(tasks)), "flags": {}, "cwd": ""})
+    if r.random() < 0.3:
+        ops.append(run_op(0.0))
+    scn["history"] = ops
+    return scn
+
+
+GEN["C11"] = gen_C11
